@@ -7,11 +7,11 @@ export GOFLAGS=-mod=mod GOPROXY=off GOSUMDB=off GOTOOLCHAIN=local VERIF_REPO=$R 
 mapchecks() {
   case "$1" in
     pkg/sbom/nodelist.go) echo "C08 C09 C10 C15 C16 C13 C11 C12";;
-    pkg/sbom/node.go) echo "C13 C09 C12 C14 C16 C11";;
+    pkg/sbom/node.go) echo "C13 C09 C12 C14 C16 C11 C01";;
     pkg/sbom/edge.go) echo "C13 C12 C08 C09";;
-    pkg/sbom/person.go|pkg/sbom/externalreference.go) echo "C13 C12 C14";;
+    pkg/sbom/person.go|pkg/sbom/externalreference.go) echo "C13 C12 C14 C01 C02";;
     pkg/sbom/diff.go) echo "C14";;
-    pkg/sbom/functions.go) echo "C05 C01";;
+    pkg/sbom/functions.go|pkg/sbom/identifier.go|pkg/sbom/hashalgorithm.go) echo "C05 C16 C01 C02";;
     pkg/native/serializers/serializer_cdx.go) echo "C02 C03 C07 C11";;
     pkg/native/serializers/serializer_spdx23.go) echo "C01 C03 C07 C11";;
     pkg/native/unserializers/unserializer_cdx.go) echo "C02 C05 C04";;
@@ -26,9 +26,9 @@ mkdir -p /verif/work/mutation
 while read f k; do
   [ -z "$f" ] && continue
   cp /repo/$f /tmp/mut$id/orig.go
-  desc=$(/verif/tools/mutate/mutate -file /repo/$f -k $k -out $R/$f 2>&1) || { echo -e "$f\t$k\tnosite\t-\t$desc" >> /verif/work/mutation/results_$id.tsv; cp /tmp/mut$id/orig.go $R/$f; continue; }
+  desc=$(/verif/tools/mutate/mutate -file /repo/$f -k $k -out $R/$f 2>&1) || { echo -e "$f\t$k\tnosite\t-\t$desc" >> /verif/work/mutation/results2_$id.tsv; cp /tmp/mut$id/orig.go $R/$f; continue; }
   if ! (cd $R && go build ./... >/dev/null 2>&1 && go vet -tags verif ./pkg/... >/dev/null 2>&1 || cd $R && go build -tags verif ./... > /dev/null 2>&1); then
-    echo -e "$f\t$k\tuncompilable\t-\t$desc" >> /verif/work/mutation/results_$id.tsv; cp /tmp/mut$id/orig.go $R/$f; continue
+    echo -e "$f\t$k\tuncompilable\t-\t$desc" >> /verif/work/mutation/results2_$id.tsv; cp /tmp/mut$id/orig.go $R/$f; continue
   fi
   verdict=survived; by=-
   for c in $(mapchecks $f); do
@@ -39,7 +39,7 @@ while read f k; do
       break
     fi
   done
-  echo -e "$f\t$k\t$verdict\t$by\t$desc" >> /verif/work/mutation/results_$id.tsv
+  echo -e "$f\t$k\t$verdict\t$by\t$desc" >> /verif/work/mutation/results2_$id.tsv
   cp /tmp/mut$id/orig.go $R/$f
 done < $jobs
-echo "STREAM $id DONE" >> /verif/work/mutation/results_$id.tsv
+echo "STREAM $id DONE" >> /verif/work/mutation/results2_$id.tsv
